@@ -566,6 +566,23 @@ def targeted(ctx: Ctx) -> Iterator[Tuple[str, str]]:
         "3 < len(self.x)", "3 < len(self.x) < 5", "(lambda: True)()", "self.x[0] == 'a'", "self.x + 1 == 2",
     ]:
         yield "invariant", f'@invariant(lambda self: {inv}, "Some description.")\nclass A:\n    x: str\n\n    def __init__(self, x: str) -> None:\n        self.x = x\n' + TAIL
+    # default values of arguments: every expression form at the position of a default — of a constructor, a method and a
+    # verification function, typed int / str / Optional — incl. unary and binary operators on every kind of literal
+    DEFAULTS = [
+        "None", "1", "-1", "+1", "~1", "--1", "-(-1)", "-1.5", "1.5", "True", "-True", "not True", '"a"', '-"a"', '+"a"', "-None", "+None", 'b"a"', '-b"a"', "...", "-...",
+        "[]", "-[]", "[1]", "()", "{}", "-{}", "1 + 1", '"a" + "b"', "1 if True else 2", "int(1)", "A", "-A", "A.x", "E.a", "-E.a", "E", "lambda: 1", "(1)", "1j", "-1j",
+        'f"a"', '-f"a"', "x", "-x", "self", "Some_set", "-Some_set", "0x7fffffffffffffffffff", "-0x7fffffffffffffffffff", "1e400", "-1e400",
+    ]
+    for d in DEFAULTS:
+        for ty in ("int", "str", "Optional[int]", "E", "List[int]"):
+            if ty not in ("int", "str") and (len(d) + len(ty)) % 3:
+                continue  # a fixed, seed-independent thinning of the less common types
+            yield "default", (
+                'class E(Enum):\n    a = "a"\n\n\nSome_set: Set[str] = constant_set(values=["a"])\n\n\n'
+                f"class A:\n    x: {ty}\n\n    def __init__(self, x: {ty} = {d}) -> None:\n        self.x = x\n\n"
+                f"    @implementation_specific\n    def compute(self, y: {ty} = {d}) -> int:\n        pass\n\n\n"
+                f"@verification\n@implementation_specific\ndef check(z: {ty} = {d}) -> bool:\n    pass\n" + TAIL
+            )
     # deep nesting (the front end recurses over the input: RecursionError beyond ~250 levels is the known finding C01-F1) and huge literals
     def _inv(e: str) -> str:
         return f'@invariant(lambda self: {e}, "d")\nclass A:\n    x: int\n\n    def __init__(self, x: int) -> None:\n        self.x = x\n' + TAIL
